@@ -90,6 +90,7 @@ def lm_stream(ctx, hexe, dexe, n_cases, size, want=("oracle", "struct", "spec"),
         ctx.hist("lm.skipped", st.get("skipped"))
         ctx.hist("lm.blanks", min(info.get("blanks", 0), 20) if isinstance(info.get("blanks", 0), int) else "?")
         ctx.hist("lm.qfit", st.get("qfit"))
+        ctx.hist("lm.hash_injective", info.get("hashinj"))
         if st.get("probing_size"):
             ctx.hist("lm.probing_size_exception", True)
         ctx.count((tag, case.arpa, tuple(map(str, case.queries))), nontrivial=st["nontrivial"] > 0 and not st.get("skipped"),
@@ -137,7 +138,9 @@ def run(ctx):
     ctx.cov["rule"] = ("lm-query: one evaluation = one scored word (compared for each of the six model classes and for "
                        "FullScore/FullScoreForgotState/GetState); a case (ARPA bytes + queries) is distinct by content and "
                        "non-trivial when some word matched an n-gram of length >= 2 or charged a back-off")
-    ctx.assumptions += ["64-bit hash injectivity on the n-grams of each generated model (MurmurHash / CombineWordHash)",
+    ctx.assumptions += ["CombineWordHash injectivity on the table keys is CHECKED per generated model by the driver (hashinj flag; "
+                        "colliding models are discarded and counted); collisions of a *queried* absent n-gram with a stored key and "
+                        "MurmurHash collisions of vocabulary strings remain assumptions",
                         "float32 arithmetic within (k+1)*2^-23*sum|terms| of the exact rational recursion",
                         "quantised classes compared in value only when every order's value count fits the bins"]
     flow.report_obligation_failures(ctx, problems, found)
